@@ -145,6 +145,7 @@ impl Report {
         }
     }
     pub fn count(&mut self, key: &str) {
+        beat();
         *self.histogram.entry(key.to_string()).or_insert(0) += 1;
     }
     pub fn add_finding(&mut self, f: Finding) {
@@ -233,4 +234,48 @@ impl Report {
         o.push_str("\n ]\n}\n");
         o
     }
+}
+
+/// Progress counter for the watchdog: bumped by every histogram count and every executed
+/// operation. An implementation that hangs in one call stops it.
+pub static HEARTBEAT: std::sync::atomic::AtomicU64 = std::sync::atomic::AtomicU64::new(0);
+
+pub fn beat() {
+    HEARTBEAT.fetch_add(1, std::sync::atomic::Ordering::Relaxed);
+}
+
+/// The text of the operation in flight (for the watchdog's report), if the engine records it.
+pub static IN_FLIGHT: std::sync::Mutex<String> = std::sync::Mutex::new(String::new());
+
+/// Kills the process (exit code 7) when no progress was made for `limit_s` seconds, after
+/// writing what was in flight to `<out>.inflight` (unless the engine keeps that file itself).
+pub fn start_watchdog(limit_s: u64, out: Option<String>) {
+    std::thread::spawn(move || {
+        let mut last = HEARTBEAT.load(std::sync::atomic::Ordering::Relaxed);
+        let mut still = 0u64;
+        loop {
+            std::thread::sleep(std::time::Duration::from_secs(1));
+            let now = HEARTBEAT.load(std::sync::atomic::Ordering::Relaxed);
+            if now != last {
+                last = now;
+                still = 0;
+                continue;
+            }
+            still += 1;
+            if still >= limit_s {
+                eprintln!("watchdog: no progress for {limit_s} s - a call into the implementation does not return");
+                if let Some(o) = &out {
+                    let f = format!("{o}.inflight");
+                    if !std::path::Path::new(&f).exists() {
+                        if let Ok(t) = IN_FLIGHT.try_lock() {
+                            if !t.is_empty() {
+                                let _ = std::fs::write(&f, t.as_bytes());
+                            }
+                        }
+                    }
+                }
+                std::process::exit(7);
+            }
+        }
+    });
 }
